@@ -100,7 +100,19 @@ def witness_F9():
     return not np.any(reg.coef_)
 
 
-WITNESS = {'F11': witness_F11, 'F12': witness_F12, 'F14': witness_F14, 'F9': witness_F9}
+def witness_F8():
+    import warnings
+    import pykoop
+    X = np.array([[0.0, 1.0 * 0.5 ** k] for k in range(8)])        # x+ = 0.5 x, exactly
+    kp = pykoop.KoopmanPipeline(regressor=pykoop.Edmd())
+    kp.fit(X, n_inputs=0, episode_feature=True)
+    with warnings.catch_warnings():
+        warnings.simplefilter('ignore')
+        exact = np.max(np.abs(kp.predict_trajectory(X)[:, 1:] - X[:, 1:])) < 1e-12
+        return bool(exact and abs(kp.score(X)) > 1e-6)
+
+
+WITNESS = {'F11': witness_F11, 'F12': witness_F12, 'F14': witness_F14, 'F9': witness_F9, 'F8': witness_F8}
 
 
 def report_known(res, pid):
